@@ -12,7 +12,7 @@
              ( now:Z 6 #addr )                        crash
              ( now:Z 7 #addr )                        Context.Leave, then the process stops
              ( now:Z 8 #addr #id )                    ForceMemberDown
-    input  = ( step ... )
+    input  = ( step ... )        or   ( ( 3e8 i ) ): the output is witness schedule i of Properties/C18.v, as steps
     output = ( ( events sends nodes ) ... )           one entry per step; a step that is not enabled prints
                                                       the error term and ends the output
     events = ( ( #addr event ) ... ), sends = ( ( #src #dst vv members ) ... ), nodes = ( ( #addr state ) ... )
@@ -116,8 +116,40 @@ Fixpoint run_steps (w : world) (l : list tm) : list tm :=
       end
   end.
 
+(** the schedule language, printed (inverse of [get_step]) *)
+Definition t_cfg (c : cfg) : tm :=
+  TL [TB (c_id c); TB (c_addr c); tlist TB (c_seeds c); tz (c_fd c); tz (c_confirm c)].
+Definition t_asks (l : list (addr * bool)) : tm := tlist (tpair TB tbool) l.
+Definition t_step (x : Z * step) : tm :=
+  let now := tz (fst x) in
+  match snd x with
+  | SStart c asks => TL [now; TN 0; t_cfg c; t_asks asks]
+  | SRetry a asks => TL [now; TN 1; TB a; t_asks asks]
+  | SGossipTick a => TL [now; TN 2; TB a]
+  | SFdTick a asks => TL [now; TN 3; TB a; tlist tbool asks]
+  | SDeliver k choice => TL [now; TN 4; TN k; topt TB choice]
+  | SDrop k => TL [now; TN 5; TN k]
+  | SCrash a => TL [now; TN 6; TB a]
+  | SLeave a => TL [now; TN 7; TB a]
+  | SForceDown a id => TL [now; TN 8; TB a; TB id]
+  end.
+
+(** the kernel-checked witness schedules of Properties/C18.v, for their replay on the real code:
+    1 = (a), 2 = (b), 3 = (c), 4 = (d), 5 = (e) *)
+Definition witness_play (i : N) : list phase :=
+  match i with
+  | 1 => wa_play | 2 => wb_play | 3 => wc_play | 4 => wd_play | 5 => we_play | _ => []
+  end.
+Definition witness_sched (i : N) : list (Z * step) :=
+  match play empty_world (witness_play i) with
+  | Some (_, rs) => sched_of rs
+  | None => []
+  end.
+
+(** input ( step ... ): replay;  input ( ( 3e8 i ) ): print witness schedule i *)
 Definition run_gossip (t : tm) : tm :=
   match t with
+  | TL [TL [TN 1000; TN i]] => tlist t_step (witness_sched i)
   | TL l => TL (run_steps empty_world l)
   | _ => tm_err 0
   end.
